@@ -2,6 +2,7 @@ package checks
 
 import (
 	"fmt"
+	"math"
 	"os"
 	"reflect"
 	"strings"
@@ -220,7 +221,9 @@ var cfStrings = []string{"", "a", "plain text", "héllo", "中", "x y z", "0", "
 // come back as results (a literal would be escaped, which is C10's business)
 var cfSpecialStrings = []string{"<b>bold</b>", "a & b", "\"quoted\" 'single'", "&lt;already&gt;", "1 < 2 > 0",
 	// bytes that are not UTF-8: the function receives them as they are
-	"caf\xe9", "\xff\xfe", "a\xc3", "\x80 mid \xe2\x82"}
+	"caf\xe9", "\xff\xfe", "a\xc3", "\x80 mid \xe2\x82",
+	// character references as they are: the function receives the text, not what it stands for
+	"it&#39;s &#34;here&#34;", "&amp;#39;", "&#x27; &apos; &quot;", "AT&amp;T", "&#60;b&#62;"}
 
 func hasSpecial(v model.Value) bool {
 	switch v.K {
@@ -249,7 +252,7 @@ func cfValue(r interface{ Intn(int) int }, depth int) model.Value {
 		case 0:
 			return model.Int([]int64{0, 1, -1, 42, 9223372036854775807, -9223372036854775807 - 1}[r.Intn(6)])
 		case 1:
-			return model.Float([]float64{0, 0.5, -1.25, 3.0, 1e6 + 0.5}[r.Intn(5)])
+			return model.Float([]float64{0, 0.5, -1.25, 3.0, 1e6 + 0.5, math.Copysign(0, -1)}[r.Intn(6)])
 		case 2:
 			return model.Bool(r.Intn(2) == 0)
 		case 3:
@@ -322,6 +325,11 @@ func sameNative(a, b any) bool {
 			}
 		}
 		return true
+	}
+	// a zero keeps its sign (the two zeros print differently)
+	if af, ok := a.(float64); ok {
+		bf, ok := b.(float64)
+		return ok && (af == bf && math.Signbit(af) == math.Signbit(bf) || af != af && bf != bf)
 	}
 	return reflect.DeepEqual(a, b)
 }
